@@ -197,6 +197,11 @@ func getField(name string, x ast.Node, parent *flds.Field) (flds.Field, bool) {
 	ast.Inspect(x, func(n ast.Node) bool {
 		switch t := n.(type) {
 		case *ast.Field:
+			if n != x {
+				// a field declared inside this field's own type (anonymous
+				// struct, func parameters): its tag and type are not ours.
+				return false
+			}
 			if t.Tag != nil {
 				tag = parseTag(t.Tag.Value)
 			}
